@@ -11,6 +11,7 @@ CONSTANTS
   SidPairs <- NoSid
   TamperMax = 11
   WireVersions <- NoVersions
+  BulkVersions <- NoVersions
 INVARIANTS TypeOK PRedactedIffMismatch PRedactedNoop PRedactedForm PIntact PIdSigIff PSigsTogether
-  PSpellingNeutral PCaseIsAnotherKey PVariantIsAnotherKey PDupOneReading PDupGenuineOnly PDupNoReadingHash PDupForgerOnly PDupSummaries Emit
+  PSpellingNeutral PCaseIsAnotherKey PVariantIsAnotherKey PDupOneReading PDupGenuineOnly PDupNoReadingHash PDupForgerOnly PDupSummaries PSizeOfTheEvent PBulkStrippedNeutral PBulkRedactable PBulkIsOverOnTheWire Emit
 CHECK_DEADLOCK FALSE
